@@ -57,7 +57,8 @@ Section Ops.
     modify (fun st => upd_cont st (with_traces (st_cont st)
                                       (aset (tr_tid t) t (c_traces (st_cont st))))).
 
-  (** VirtualSignal.value: cache keyed by the current timestamp *)
+  (** VirtualSignal.value: cache keyed by the current index (two samples can carry the same timestamp; the caches
+      are dropped when the sampling changes) *)
   Definition virtual_value (tid name : string) : M val :=
     st <- get_st ;;
     match alookup tid (c_traces (st_cont st)) with
@@ -66,9 +67,7 @@ Section Ops.
         match alookup name (tr_virt t) with
         | None => fail EOther
         | Some vs =>
-            match znth (tr_ts t) (tr_index t) with
-            | None => fail EOther
-            | Some ts =>
+            let ts := tr_index t in
                 let fix find (l : list (Z * val)) :=
                   match l with
                   | [] => None
@@ -92,7 +91,6 @@ Section Ops.
                         end
                     end
                 end
-            end
         end
     end.
 
